@@ -1,6 +1,12 @@
 """C16 — numeric bounds and multiples are exact."""
 from . import common as C
 
+MANIFEST = dict(
+   technique="Lean 4 proof (exactness of compareNumeric/cmpIntFloat/multipleOfInts over all of Int and all dyadic floats) + differential correspondence of the model against pkg/validate and real numeric schemas",
+   text="Theorems c16_cmp / c16_int_cmp / c16_int_float_cmp / c16_multiple_int prove, for every operand pair of every Go numeric kind, that the transcribed comparison and integer-multiple algorithms equal the mathematical relation (NaN unordered). The hand-written model is tied to /repo by running both on exhaustive 8-bit (thorough: 16-bit) enumerations and a 2^k-boundary grid over all 144 kind pairs, directly and through real schemas.",
+   note="Trusted: Lean kernel; axioms propext/Classical.choice/Quot.sound only; the Go harness and comparer; Go float64 operators and math.Trunc being IEEE-754. Float MultipleOf (documented epsilon rule) is not modelled. The model is a hand transcription validated on generated cases, not for all inputs.",
+   design="DESIGN.md §5 C16")
+
 MODULES = ["Gozod.Proofs.C16"]
 THEOREMS = [
     "Gozod.C16.c16_cmp", "Gozod.C16.c16_int_cmp", "Gozod.C16.c16_sign", "Gozod.C16.c16_float_cmp",
